@@ -72,6 +72,9 @@ class Arr:
         if k in self.store:
             return self.store[k]
         if self.default is None:
+            ext = self.base.extent
+            if ext is not None and isinstance(k, int) and not (0 <= k < ext):
+                return Opaque(f'out-of-bounds read {self.base.name}[{k}]')        # logged in OOB_LOG by _bounds; the program reads garbage there
             raise AnalysisError(f'read of unset slot {self.name}[{k}]')
         v = self.default(k)
         return v
